@@ -659,7 +659,7 @@ def arith_stage(R, prop, tier):
                 R.violation('%s law %s fails for %s p=%s g=%s d=%s op=%s round=%s a=%s b=%s c=%s result=%s' % (
                     prop, what, c['cls'], c['p'], c['g'], c['d'], c['op'], c['rnd'], c['a'], c['b'], c['c'], c['r'] if c['op'] != 'str' else c.get('str', c.get('pu'))),
                     dict(call=c))
-    mine = [c for c in calls if (prop == 'C14') == (c['op'] == 'str') and (prop != 'C13' or c['cls'] == 'guarded') and (prop != 'C12' or c['cls'] != 'guarded')]
+    mine = [c for c in calls if (prop == 'C14') == (c['op'] in ('str', 'strq')) and (prop != 'C13' or c['cls'] == 'guarded') and (prop != 'C12' or c['cls'] != 'guarded')]
     R.cov['evaluations'] += len(mine)
     R.cov['traces_validated_against_impl'] += len(mine)
     R.cov['distinct_nontrivial'] += len(set((c['cls'], c['p'], c['g'], c['d'], c['op'], c['rnd'], str(c['a']), str(c['b']), str(c['c'])) for c in mine))
@@ -713,6 +713,41 @@ def cli_stage(R, tier):
     R.stage('CliArgs.tla: argument lists parsed by spec and by Options.parse', distinct_states=res['distinct'], cases=len(cases), differences=nd)
 
 
+def main_options_stage(R, tier):
+    "the command-line driver: the report printed by Droop.main names exactly the unused / overridden options of the option model"
+    import tempfile, importlib, io, contextlib
+    Droop = importlib.import_module('Droop')
+    fd, pth = tempfile.mkstemp(prefix='vopt-', suffix='.blt')
+    n = 0
+    try:
+        with os.fdopen(fd, 'w') as fh:
+            fh.write(optreplay.BLT % '[droop precision=3 colour=red]')
+        for rule in drive.RULES:
+            for extra in ({}, {'colour': 'blue'}, {'omega': 3, 'dump': True}, {'guard': 2, 'json': True, 'dump': True}, {'arithmetic': 'fixed', 'display': 1, 'json': True}):
+                opts = dict(extra, rule=rule, path=pth)
+                try:
+                    with contextlib.redirect_stdout(io.StringIO()):
+                        out = Droop.main(dict(opts))
+                    E = drive.Election(drive.ElectionProfile(path=pth), {k: v for k, v in opts.items() if k not in ('dump', 'json')})
+                except Exception:
+                    continue
+                n += 1
+                R.cov['traces_validated_against_impl'] += 1
+
+                def listed(prefix):
+                    for l in out.split('\n'):
+                        if l.startswith(prefix):
+                            return sorted(l[len(prefix):].split(', '))
+                    return []
+                want_unused = sorted(set(E.options.unused()) - {'dump', 'json', 'report'})
+                if listed('\tUnused options: ') != want_unused or listed('\tOverridden options: ') != E.options.overrides():
+                    R.violation('C17: Droop.main report header for %s: unused %s (expected %s), overridden %s (expected %s)' % (
+                        opts, listed('\tUnused options: '), want_unused, listed('\tOverridden options: '), E.options.overrides()), dict(options={k: str(v) for k, v in opts.items()}))
+    finally:
+        os.unlink(pth)
+    R.stage('Droop.main report header vs option layers', runs=n)
+
+
 OPT_CFG = ('INIT Init\nNEXT Next\nINVARIANT StatutoryImmune\nINVARIANT Precedence\nINVARIANT Reported\nINVARIANT Exported\nCONSTANTS\n'
            ' RULESET = {%s}\n MAXACTIVE = %d\n EXPORT = %d\n')
 
@@ -729,6 +764,7 @@ def options_stage(R, prop, tier):
     if 'Error:' in res['out']:
         raise vlib.Machinery('TLC error in Options.tla:\n' + res['out'][-2500:])
     cli_stage(R, tier)
+    main_options_stage(R, tier)
     cases = optreplay.cases_of(res['out'])
     nd = 0
     for case in cases:
@@ -934,7 +970,7 @@ def check_c19(tier):
             K, full, fulljson = interrupt.full_run(blt0, opts, None)
             ks = sorted(set(range(1, 60, 4)) | set(rng.sample(range(1, K + 1), min(K, 12 if tier == 'quick' else 150))))
             for k in ks:
-                X = interrupt.main_record(pth, blt0, opts, k, full, fulljson, with_report=(k % 2 == 0))
+                X = interrupt.main_record(pth, blt0, dict(opts, profile=1) if k % 5 == 0 else opts, k, full, fulljson, with_report=(k % 2 == 0))
                 R.cov['evaluations'] += 1
                 if X is None:
                     continue
@@ -990,6 +1026,10 @@ def check_blt(prop, tier):
     texts = []
     for _ in range(nwf):
         e = blt.abstract_election(rng, maxc=6 if rng.random() < 0.9 else 9)
+        texts.append((blt.render_wf(rng, e), blt.denote(e)))
+    for big in (255, 256, 257):
+        e = blt.abstract_election(rng, nc=big)
+        e['names'] = ['c%d' % c for c in range(1, big + 1)]
         texts.append((blt.render_wf(rng, e), blt.denote(e)))
     texts += [(t, None) for t in blt.edge_texts(rng)]
     if prop == 'C16' or tier == 'thorough':
